@@ -90,6 +90,72 @@ def _pyval(v):
     return str(v)
 
 
+_PYFN_CACHE = {}
+
+
+def _single_var_fn(term):
+    """(variable name, python predicate) for a Bool term over exactly one Int constant, else None.
+    Used to decide character tests by finite-domain evaluation instead of a solver call."""
+    key = term.get_id()
+    if key in _PYFN_CACHE:
+        return _PYFN_CACHE[key][1]
+    names = set()
+
+    def tr(t):
+        if z3.is_int_value(t):
+            return str(t.as_long())
+        if z3.is_true(t):
+            return 'True'
+        if z3.is_false(t):
+            return 'False'
+        if z3.is_const(t) and t.decl().kind() == z3.Z3_OP_UNINTERPRETED:
+            if t.sort() != z3.IntSort():
+                raise ValueError
+            names.add(str(t))
+            return 'c'
+        k = t.decl().kind()
+        ch = [tr(x) for x in t.children()]
+        if k == z3.Z3_OP_AND:
+            return '(' + ' and '.join(ch) + ')'
+        if k == z3.Z3_OP_OR:
+            return '(' + ' or '.join(ch) + ')'
+        if k == z3.Z3_OP_NOT:
+            return '(not ' + ch[0] + ')'
+        if k == z3.Z3_OP_EQ:
+            return '(' + ch[0] + ' == ' + ch[1] + ')'
+        if k == z3.Z3_OP_DISTINCT and len(ch) == 2:
+            return '(' + ch[0] + ' != ' + ch[1] + ')'
+        if k == z3.Z3_OP_LE:
+            return '(' + ch[0] + ' <= ' + ch[1] + ')'
+        if k == z3.Z3_OP_LT:
+            return '(' + ch[0] + ' < ' + ch[1] + ')'
+        if k == z3.Z3_OP_GE:
+            return '(' + ch[0] + ' >= ' + ch[1] + ')'
+        if k == z3.Z3_OP_GT:
+            return '(' + ch[0] + ' > ' + ch[1] + ')'
+        if k == z3.Z3_OP_ITE:
+            return '(' + ch[1] + ' if ' + ch[0] + ' else ' + ch[2] + ')'
+        if k == z3.Z3_OP_ADD:
+            return '(' + ' + '.join(ch) + ')'
+        if k == z3.Z3_OP_SUB:
+            return '(' + ' - '.join(ch) + ')'
+        if k == z3.Z3_OP_MUL:
+            return '(' + ' * '.join(ch) + ')'
+        if k == z3.Z3_OP_UMINUS:
+            return '(-' + ch[0] + ')'
+        raise ValueError
+    res = None
+    try:
+        if _term_size(term, 400) < 400:
+            src = tr(term)
+            if len(names) == 1:
+                res = (next(iter(names)), eval('lambda c: ' + src))
+    except (ValueError, RecursionError):
+        res = None
+    _PYFN_CACHE[key] = (term, res)      # keep the term alive: z3 recycles AST ids of freed terms
+    return res
+
+
 class Explorer(object):
     """Depth-first exploration of the feasible paths of `fn(explorer)` by re-execution."""
 
@@ -112,6 +178,8 @@ class Explorer(object):
         self.forks = 0            # decisions where both polarities were feasible
         self.queries = 0
         self.fresh_queries = 0
+        self.domains = {}          # Int constant name -> list of still-possible values (over-approximation)
+        self.domain_decided = 0
         self.incremental_timeout_ms = 15000
         self._answered = self.solver
         self.solver_s = 0.0
@@ -189,6 +257,11 @@ class Explorer(object):
         self.inputs[name] = b           # model value reported as unsigned 64-bit; harness converts
         return ZB(z3.SignExt(ZB_BITS - 64, b))
 
+    def declare_domain(self, term, values):
+        """finite over-approximation of the values of an Int constant (character code): lets
+        branch() settle tests that hold for every remaining value without a solver call"""
+        self.domains[str(term)] = list(values)
+
     def bool(self, name):
         t = z3.Bool(name)
         self.inputs[name] = t
@@ -211,6 +284,20 @@ class Explorer(object):
             return True
         if z3.is_false(term):
             return False
+        sv = _single_var_fn(term) if self.domains else None
+        dom = None
+        if sv is not None and sv[0] in self.domains:
+            dom = self.domains[sv[0]]
+            nt = 0
+            for k in dom:
+                if sv[1](k):
+                    nt += 1
+            if nt == len(dom):          # implied by the finite domain of this character: no solver call
+                self.domain_decided += 1
+                return True
+            if nt == 0:
+                self.domain_decided += 1
+                return False
         self.decisions += 1
         if self.pos < len(self.prefix):
             kind, val, forced = self.prefix[self.pos]
@@ -219,6 +306,8 @@ class Explorer(object):
             self.log.append((kind, val, forced))
             if not forced:
                 self.add(term if val else z3.Not(term))
+            if dom is not None:
+                self.domains[sv[0]] = [k for k in dom if bool(sv[1](k)) == val]
             return val
         can_t = self._check(term)
         can_f = self._check(z3.Not(term))
@@ -228,12 +317,16 @@ class Explorer(object):
             self.log.append(('b', True, False))
             self.pos += 1
             self.add(term)
+            if dom is not None:
+                self.domains[sv[0]] = [k for k in dom if sv[1](k)]
             return True
         if not can_t and not can_f:
             raise PathAbort('path condition became infeasible')
         val = bool(can_t)
         self.log.append(('b', val, True))
         self.pos += 1
+        if dom is not None:
+            self.domains[sv[0]] = [k for k in dom if bool(sv[1](k)) == val]
         return val
 
     def concretize(self, term, pyconv=None):
@@ -392,6 +485,7 @@ class Explorer(object):
                 self._fresh = 0
                 self.detail = None
                 self.hints = []
+                self.domains = {}
                 self.solver.push()
                 try:
                     fn(self)
@@ -432,7 +526,7 @@ class Explorer(object):
                 'aborted': self.paths_aborted, 'cut': self.paths_cut, 'cut_reasons': self.cut_reasons,
                 'decisions': self.decisions, 'forks': self.forks, 'queries': self.queries,
                 'solver_s': round(self.solver_s, 4), 'requires': self.requires,
-                'sym_requires': self.sym_requires, 'rewrites': self.rewrites, 'fresh_queries': self.fresh_queries,
+                'sym_requires': self.sym_requires, 'rewrites': self.rewrites, 'fresh_queries': self.fresh_queries, 'domain_decided': self.domain_decided,
                 'require_labels': self.require_labels,
                 'violations': [v.as_dict() for v in self.violations],
                 'samples': self.samples, 'notes': self.notes,
@@ -1339,6 +1433,21 @@ class BV(Sym):
         for _ in range(e):
             out = out * a.term
         return BV(out, dt)
+
+    def __rpow__(self, base):
+        """concrete base ** symbolic sized int: 2**e stays symbolic as a shift, other bases fork over e"""
+        if isinstance(base, (int, np.integer)) and not isinstance(base, bool):
+            # numpy hands its own scalar over as a Python int: the exponent's dtype decides
+            dt = np.result_type(base.dtype, self.dtype) if isinstance(base, np.integer) else self.dtype
+            if dt.kind not in 'iu':
+                raise TypeError('ufunc power not supported for the input types (%s, %s)' % (base.dtype, self.dtype))
+            e = self.cast(dt)
+            if int(base) == 2:
+                one = z3.BitVecVal(1, dt.itemsize * 8)
+                return BV(z3.If(z3.ULT(e.term, dt.itemsize * 8), one << e.term, z3.BitVecVal(0, dt.itemsize * 8)), dt)
+            k = ctx().concretize(e.term)
+            return BV(z3.BitVecVal(int(base) ** k, dt.itemsize * 8), dt)
+        return NotImplemented
 
     def _cmp(self, o, fs, fu):
         if isinstance(o, int) and not isinstance(o, bool):
